@@ -252,6 +252,10 @@ func storeIntoMemory(interp *Interpreter, offset int, memIndex uint32, immediate
 	}
 
 	// Cross-page slow path.
+	if pageNum == (1<<32)/ZP-1 {
+		// the access wraps past 2^32 and so touches addresses below 2^16 (A.8)
+		return ExitPanic
+	}
 	nextPage, ok := mem.Pages[pageNum+1]
 	if !ok {
 		return ExitPageFault | ExitReason(memIndex)
@@ -293,6 +297,10 @@ func loadFromMemory(interp *Interpreter, offset uint32, vx uint32) (uint64, Exit
 		case 8:
 			return binary.LittleEndian.Uint64(v), ExitContinue
 		}
+	}
+	if pageNum == (1<<32)/ZP-1 {
+		// the access wraps past 2^32 and so touches addresses below 2^16 (A.8)
+		return 0, ExitPanic
 	}
 
 	// Cross-page slow path: assemble bytes into a stack buffer.
